@@ -111,6 +111,7 @@ var properties = map[string][]harnessSpec{
 		{Name: "input/ast.VerifC11Trivia", Quick: map[string]int{"C11.window": 3}, Thorough: map[string]int{"C11.window": 4}, Marks: end, MustTerminate: true},
 		{Name: "input/ast.VerifC11TriviaBetween", Quick: map[string]int{"C11.between": 3}, Thorough: map[string]int{"C11.between": 4}, Marks: []string{"end", "skipped"}, MustTerminate: true},
 		{Name: "input/ast.VerifC11MetaSpaces", Quick: map[string]int{"C11.metaLen": 2}, Thorough: map[string]int{"C11.metaLen": 3}, Marks: end},
+		{Name: "cmd.VerifC11DescribeAccidental", Marks: end},
 		{Name: "input/ast.VerifC11Underscore", Quick: map[string]int{"C11.symbol": 3}, Thorough: map[string]int{"C11.symbol": 4}, Marks: []string{"end", "not-a-plain-symbol"}, MustTerminate: true},
 		{Name: "astconv.VerifC11LeadingZeros", Quick: map[string]int{"C11.digits": 2}, Thorough: map[string]int{"C11.digits": 4}, Marks: []string{"end", "converted"}},
 		{Name: "astconv.VerifC11Accidental", Marks: []string{"end", "honoured", "not-an-accidental"}},
